@@ -36,6 +36,8 @@ def universe():
         out += [[mrec("ß", "u1")], [mrec("SS", "u2")], [mrec("ss", "u3", ("k",))], [mrec("k1", "http://ﬁ/")], [mrec("k2", "http://FI/")], [mrec("ß", "u4"), mrec("SS", "u5")], [mrec("k3", "u6", ("SS",))], [mrec("k4", "u7", ("ß",), ("http://ﬁ/x",))], [mrec("k5", "u8", (), ("http://FI/x",))]]
         # the two sides are separate name spaces: a string may be a CURIE prefix of one record and a URI prefix of another (or the same)
         out += [[mrec("x", "a")], [mrec("x", "x")], [mrec("a", "x", ("x",))], [mrec("b", "x", (), ("a",))], [mrec("a", "a", ("x",), ("b",))], [mrec("x", "b", ("b",), ("x",))]]
+        # the empty string is a legal CURIE prefix (default namespace) and a legal URI prefix
+        out += [[mrec("", "x")], [mrec("a", "")], [mrec("", "X", ("a",))], [mrec("b", "xy", ("",), ("",))], [mrec("", "")]]
         _UNIVERSE = out
     return _UNIVERSE
 
@@ -226,6 +228,20 @@ def check_sub(recs_json, delim_rewrite, P, ctx=None):
     where = f"Converter({recs_json}).get_subconverter({sorted(P)})"
     try:
         sub = conv.get_subconverter(list(P))
+        # P may be any iterable of prefixes: the kind of collection does not matter
+        import collections as _c
+
+        kinds = {"set": set(P), "tuple": tuple(sorted(P)), "generator": (p for p in sorted(P)), "dict": dict.fromkeys(sorted(P), 0), "deque": _c.deque(sorted(P)), "frozenset": frozenset(P)}
+        try:
+            import pandas as _pd
+
+            kinds["pandas.Series"] = _pd.Series(sorted(P), index=[f"r{i}" for i in range(len(P))], dtype=object)
+        except ImportError:
+            pass
+        for kname, pk in kinds.items():
+            other = conv.get_subconverter(pk)
+            if record_set(other) != record_set(sub):
+                return [("sub/depends-on-the-kind-of-collection/" + kname, f"{where}: given as a {kname} it keeps {sorted(r.prefix for r in other.records)}, given as a list {sorted(r.prefix for r in sub.records)}")]
     except Exception as e:  # noqa
         return [("sub/raises/" + type(e).__name__, f"{where}: {type(e).__name__}: {e}")]
     if ctx is not None:
